@@ -1,0 +1,30 @@
+//go:build verif
+
+package layout
+
+import (
+	pr "github.com/benoitkugler/webrender/css/properties"
+	bo "github.com/benoitkugler/webrender/html/boxes"
+)
+
+// Read-only wrappers of the unexported block layout leaf functions, used by
+// the /verif correspondence harness (property C10). Not compiled without
+// the `verif` build tag.
+
+// VerifBlockLevelWidth runs blockLevelWidth (blockLevelWidth_ wrapped by
+// handleMinMaxWidth) on [box], against a left-to-right containing block of
+// width [cbWidth]. The used values are set on the box.
+func VerifBlockLevelWidth(box bo.Box, cbWidth pr.Float) {
+	blockLevelWidth(box, nil, block{Width: cbWidth})
+}
+
+// VerifResolvePercentages runs resolvePercentages on [box] (mainFlexDirection = 0),
+// against a containing block with the given width and height (which may be pr.AutoF).
+func VerifResolvePercentages(box bo.Box, cbWidth, cbHeight pr.MaybeFloat) {
+	resolvePercentages(box, bo.MaybePoint{cbWidth, cbHeight}, 0)
+}
+
+// VerifCollapseMargin exposes collapseMargin.
+func VerifCollapseMargin(adjoiningMargins []pr.Float) pr.Float {
+	return collapseMargin(adjoiningMargins)
+}
